@@ -73,6 +73,22 @@ class QueueStorage(object):
         for index in sorted(rcpt_indexes, reverse=True):
             del envelope.recipients[index]
 
+    def _delivered_round(self, rcpt_indexes):
+        # The indexes of one call refer to the recipients as last returned by
+        # get(), i.e. with earlier rounds already removed. Highest first, so
+        # that the accumulated list can be replayed one deletion at a time.
+        return sorted(rcpt_indexes, reverse=True)
+
+    def _delivered_log(self, stored):
+        # A bare set was stored by older versions and holds a single round.
+        if isinstance(stored, (set, frozenset)):
+            return self._delivered_round(stored)
+        return list(stored)
+
+    def _replay_delivered_rcpts(self, envelope, delivered_indexes):
+        for index in self._delivered_log(delivered_indexes):
+            del envelope.recipients[index]
+
     def write(self, envelope, timestamp):
         """Writes the given envelope to storage, along with the timestamp of
         its next delivery attempt. The number of delivery attempts asociated
@@ -110,14 +126,15 @@ class QueueStorage(object):
     def set_recipients_delivered(self, id, rcpt_indexes):
         """.. versionadded:: 1.1.0
 
-        Marks the given recipients from the original envelope as
-        already-delivered, meaning they will be skipped by future relay
-        attempts.
+        Marks the given recipients of the envelope as already-delivered,
+        meaning they will be skipped by future relay attempts.
 
         :param id: The unique identifier string for the message.
-        :param rcpt_indexes: List of indexes in the original envelope's
+        :param rcpt_indexes: Iterable of indexes in the
                              :attr:`~slimta.envelope.Envelope.recipients` list
-                             to mark as delivered.
+                             of the envelope as currently returned by
+                             :meth:`.get` (that is, without the recipients
+                             marked by earlier calls) to mark as delivered.
         :raises: :class:`QueueError`
 
         """
